@@ -186,6 +186,20 @@ class Net(nn.Module):
                 self.head['gap'] = nn.AdaptiveAvgPool1d(1) if dim == 1 else nn.AdaptiveAvgPool2d(1)
                 sp = 1
             self.head['fc'] = nn.Linear(3 * sp, h.get('out', 3))
+        elif self._hk == 'flatcat':
+            # two searchable producers flattened at DIFFERENT spatial sizes (the second one is pooled first) and concatenated
+            conv = nn.Conv1d if dim == 1 else nn.Conv2d
+            self.head['fa'] = conv(c, 3, 1)
+            self.head['fb'] = conv(c, 2, 1)
+            self.head['pool'] = nn.MaxPool1d(2) if dim == 1 else nn.MaxPool2d(2)
+            self.eval()
+            with torch.no_grad():
+                probe = self._features(torch.zeros((1, prog['cin']) + (prog['size'],) * dim))
+                pb = self.head['pool'](probe)
+            self.train()
+            self._sp_a = int(probe[0].numel() // c)
+            self._sp_b = int(pb[0].numel() // c)
+            self.head['fc'] = nn.Linear(3 * self._sp_a + 2 * self._sp_b, h.get('out', 3))
         elif self._hk == 'flatout':
             pass
         else:
@@ -240,6 +254,12 @@ class Net(nn.Module):
                 x = self.head['flatten'](x)
             elif fl == 'torch':
                 x = torch.flatten(x, 1)
+            elif fl == 'torchend':      # explicit (inclusive) end_dim
+                x = torch.flatten(x, 1, self.prog['dim'] + 1)
+            elif fl == 'kwend':
+                x = torch.flatten(x, start_dim=1, end_dim=self.prog['dim'] + 1)
+            elif fl == 'methodend':
+                x = x.flatten(1, -1)
             else:
                 x = x.flatten(1)
             return self._post(self.head['fc'](x))
@@ -261,6 +281,10 @@ class Net(nn.Module):
             return self._post(self.head['fc'](x))
         if self._hk == 'fcnadd':
             return self.head['out'](x) + self.head['out2'](x)
+        if self._hk == 'flatcat':
+            a = torch.relu(self.head['fa'](x)).flatten(1)
+            b = self.head['pool'](torch.relu(self.head['fb'](x))).flatten(1)
+            return self.head['fc'](torch.cat((a, b), 1))
         if self._hk == 'flatadd':
             a, b = self.head['fa'](x), self.head['fb'](x)
             if h.get('join') == 'gap':
@@ -339,7 +363,7 @@ def layer_names(prog):
             out += [f'blocks.s{i}m{j}.conv' for j, m in enumerate(st['members']) if m not in ('id', 'mp', 'ap')]
     hk = prog['head']['kind']
     out += {'flatlin': ['head.fc'], 'gaplin': ['head.fc1', 'head.fc'], 'fcn': ['head.out'], 'fcnadd': ['head.out', 'head.out2'],
-            'flatadd': ['head.fa', 'head.fb', 'head.fc'], 'flatout': []}[hk]
+            'flatadd': ['head.fa', 'head.fb', 'head.fc'], 'flatcat': ['head.fa', 'head.fb', 'head.fc'], 'flatout': []}[hk]
     return out
 
 
@@ -385,6 +409,11 @@ def alive_ref(prog, own, flat_mult):
     elif hk == 'gaplin':
         t1 = conv('head.fc1', T)
         exp_in['head.fc'] = t1
+    elif hk == 'flatcat':
+        a = conv('head.fa', T)
+        b = conv('head.fb', T)
+        ma, mb = flat_mult        # (spatial size of the un-pooled branch, of the pooled branch)
+        exp_in['head.fc'] = [v for v in a for _ in range(ma)] + [v for v in b for _ in range(mb)]
     elif hk == 'flatadd':
         a = conv('head.fa', T)
         b = conv('head.fb', T)
@@ -422,10 +451,10 @@ HEADS = [{'kind': 'flatlin'}, {'kind': 'gaplin'}, {'kind': 'fcn'}]
 
 CONV_OPTS = [{'bias': False}, {'bn': True}, {'bn': True, 'bias': False}, {'bn': True, 'bn_eps': 0.05}, {'pad': 'causalv'}, {'pad': 'causalv', 'k': 5}, {'s': 2}, {'k': 5}, {'k': 1}, {'k': 4}, {'d': 2}, {'pad': 'sym'}, {'pad': 'same'},
              {'act': 'silu'}, {'act': 'frelu'}, {'act': None}, {'act': 'relu6'}, {'cout': 4}]
-HEAD_OPTS = {'flatlin': [{'flat': 'torch'}, {'flat': 'method'}, {'bias': False}, {'post': 'frelu'}, {'post': 'lsm'}],
+HEAD_OPTS = {'flatlin': [{'flat': 'torch'}, {'flat': 'method'}, {'flat': 'torchend'}, {'flat': 'kwend'}, {'flat': 'methodend'}, {'bias': False}, {'post': 'frelu'}, {'post': 'lsm'}],
              'gaplin': [{'flat': 'torch'}, {'flat': 'method'}, {'flat': 'squeeze'}, {'bn': False}, {'hbias': False}, {'post': 'frelu'}, {'bn_eps': 0.05}],
              'fcn': [{'post': 'relu'}, {'post': 'gap'}, {'post': 'frelu'}, {'post': 'lsm'}],
-             'fcnadd': [], 'flatadd': []}
+             'fcnadd': [], 'flatadd': [], 'flatcat': []}
 POOL_OPTS = [{'kind': 'avg'}, {'kind': 'adaptive'}]
 
 
@@ -611,7 +640,7 @@ def must_be_full(prog):
         assert last['op'] == 'conv' and not last.get('dw'), 'flatout is only defined after a plain conv stage'
         out.add(f"blocks.s{len(prog['stages']) - 1}.conv")
         return out
-    out.add({'flatlin': 'head.fc', 'gaplin': 'head.fc', 'fcn': 'head.out', 'fcnadd': 'head.out', 'flatadd': 'head.fc'}[prog['head']['kind']])
+    out.add({'flatlin': 'head.fc', 'gaplin': 'head.fc', 'fcn': 'head.out', 'fcnadd': 'head.out', 'flatadd': 'head.fc', 'flatcat': 'head.fc'}[prog['head']['kind']])
     if prog['head']['kind'] == 'fcnadd':
         out.add('head.out2')
     return out
@@ -641,4 +670,5 @@ def gen_special(dims=(1, 2)):
                                 'stages': [{'op': 'conv'}, {'op': 'concat', 'members': list(mem)}] + [dict(x) for x in post], 'head': dict(h)})
             out.append({'dim': dim, 'cin': 3, 'size': _size(dim), 'stages': [dict(x) for x in st], 'head': {'kind': 'flatadd'}})
             out.append({'dim': dim, 'cin': 3, 'size': _size(dim), 'stages': [dict(x) for x in st], 'head': {'kind': 'flatadd', 'join': 'gap'}})
+            out.append({'dim': dim, 'cin': 3, 'size': _size(dim), 'stages': [dict(x) for x in st], 'head': {'kind': 'flatcat'}})
     return [p for p in out if _valid(p)]
